@@ -288,9 +288,8 @@ def encode_articulation(
         # indices of notes with duration 0 (grace notes)
         grace_mask = sd <= 0
 
-        # Grace notes have an articulation ratio of 1
+        # the articulation of grace notes is taken relative to one beat
         sd[grace_mask] = 1
-        pd[grace_mask] = bp
         articulation[idx] = np.log2(pd / (bp * sd))
 
     return articulation
@@ -301,6 +300,8 @@ def decode_articulation(score_durations, articulation_parameter, beat_period):
     Decode articulation
     """
     art_ratio = 2**articulation_parameter
+    # grace notes (no score duration) are relative to one beat, see encode_articulation
+    score_durations = np.where(score_durations <= 0, 1, score_durations)
     dur = art_ratio * score_durations * beat_period
 
     return dur
